@@ -712,6 +712,7 @@ def execStmt (w : World τ) (a : ActId) (fs : List (Frame τ)) : Stmt τ → Wor
   | .qGet q => (w.emit a "getreq" [q]).acquireLock a (.gotValue :: fs) (w.queues.getD q default).mutex (.queueGet q)
   | .qClose q =>
     let qu := w.queues.getD q default
+    let w := w.emit a "qclose" [q]
     let w := if !qu.closed then
         ({ w with queues := w.queues.modify q (fun x => { x with closed := true }) }).awakeAll qu.notif
       else w
